@@ -591,6 +591,88 @@ func init() {
 	)
 }
 
+// replayOld: the first answer RRset replaced by altered data that the ZONE ITSELF signed, with a
+// validity window that lies entirely in the past (future=false) or in the future (future=true).
+func replayOld(c *vkTamperCtx, m *dns.Msg, future bool) bool {
+	if c.zone == nil || !c.zone.Mode.Signed() || len(m.Answer) == 0 || c.q.Qtype == dns.TypeDNSKEY {
+		return false
+	}
+	first := m.Answer[0]
+	if isSigLike(first.Header().Rrtype) || !dns.IsSubDomain(c.zone.Apex, first.Header().Name) {
+		return false
+	}
+	var set, rest []dns.RR
+	for _, rr := range m.Answer {
+		h := rr.Header()
+		same := strings.EqualFold(h.Name, first.Header().Name)
+		switch {
+		case same && h.Rrtype == first.Header().Rrtype:
+			set = append(set, rr)
+		case same && sigCovers(rr, func(t uint16) bool { return t == first.Header().Rrtype }):
+		default:
+			rest = append(rest, rr)
+		}
+	}
+	f := flipRR(set[0])
+	if f == nil {
+		return false
+	}
+	set[0] = f
+	now := time.Now()
+	inc, exp := now.Add(-30*24*time.Hour), now.Add(-2*time.Hour)
+	if future {
+		inc, exp = now.Add(2*time.Hour), now.Add(30*24*time.Hour)
+	}
+	// wildcard expansions keep the wildcard's label count: sign under the stored owner
+	sig := c.zone.SignWindow(set, inc, exp)
+	m.Answer = append(append(set, sig), rest...)
+	return true
+}
+
+func init() {
+	vkKinds = append(vkKinds,
+		vkKind{"replay-expired", 0, func(c *vkTamperCtx, m *dns.Msg) bool { return replayOld(c, m, false) }},
+		vkKind{"replay-future", 0, func(c *vkTamperCtx, m *dns.Msg) bool { return replayOld(c, m, true) }},
+		vkKind{"forge-partial-unsigned", 0, func(c *vkTamperCtx, m *dns.Msg) bool {
+			// one RRset of a multi-RRset response altered and left without its RRSIG; the other RRsets stay signed
+			nsig := 0
+			eachSig(m, func(*dns.RRSIG) { nsig++ })
+			if nsig < 2 {
+				return false
+			}
+			sec := &m.Answer
+			idx := -1
+			for i, rr := range m.Answer {
+				if !isSigLike(rr.Header().Rrtype) {
+					idx = i
+				}
+			}
+			if idx < 0 {
+				sec = &m.Ns
+				for i, rr := range m.Ns {
+					if t := rr.Header().Rrtype; !isSigLike(t) && t != dns.TypeNS {
+						idx = i
+					}
+				}
+			}
+			if idx < 0 {
+				return false
+			}
+			victim := (*sec)[idx]
+			f := flipRR(victim)
+			if f == nil {
+				return false
+			}
+			(*sec)[idx] = f
+			vh := victim.Header()
+			*sec, _ = dropTypes(*sec, func(rr dns.RR) bool {
+				return strings.EqualFold(rr.Header().Name, vh.Name) && sigCovers(rr, func(t uint16) bool { return t == vh.Rrtype })
+			})
+			return true
+		}},
+	)
+}
+
 func hasSOA(rrs []dns.RR) bool {
 	for _, rr := range rrs {
 		if rr.Header().Rrtype == dns.TypeSOA {
